@@ -38,4 +38,10 @@ CHECKS = {
         "text": "The full truth table of all six relations in all 16 spellings over value/raw/literal alphabets that contain falsy values and int-vs-float pairs, every AND/OR tree up to the bound under every assignment, and several hundred restriction criteria of every form (read from XML and built from objects) over a packet family are evaluated; each result must be exactly True/False as the relation dictates.",
         "note": "Literals that cannot be coerced, bytes operands and references to not-yet-decoded parameters are unspecified and outside the alphabet.",
     },
+    "C08": {
+        "level": "exploration",
+        "technique": "bounded-exhaustive enumeration of calibrator/enumeration/boolean/time configurations x all raw values of the field through load + parse, against exact rational evaluation",
+        "text": "Every polynomial and spline of the stated grammar, every context-calibrator list of <= 2 over a 6-criterion alphabet with and without a default, and the enumeration/boolean/time derivations (also over calibrated encodings) are loaded from generated documents and queried at every raw value of the field (all knots, both end points, both outside regions); value, kind, raw value and exception class are compared with the reference.",
+        "note": "Calibrated results are compared with a tolerance of max(4 ulp, 16 eps x operand magnitude) so that any correct evaluation order passes; NaN/inf raws through calibrators are unspecified.",
+    },
 }
